@@ -56,7 +56,7 @@ def gen_cfg(rng, world, fault_rate=0.35):
                          "exc": rng.choice(["OSError", "ValueError", "KeyError", "SimFault", "URLError"]),
                          "kind": rng.choice(["net_error", "net_short_body", "net_bad_utf8",
                                              "net_not_json", "net_read_error"]),
-                         "cut": rng.randrange(0, 64)}
+                         "cut": rng.randrange(0, 64), "silent": rng.random() < 0.15}
     return {"cache_remote": rng.random() < 0.65, "urljoin_cache": rng.choice(caches),
             "remote_cache": rng.choice(caches), "handler_schemes": schemes,
             "base_mode": rng.choice(["from_schema", "explicit"]),
@@ -78,7 +78,10 @@ class Actor(object):
         if calls:
             self.transport.set_calls(calls)
         self.cls = build_class(draft, world.get("custom"), self.collab)
-        self.fc = build_format_checker(world.get("formats"), self.collab)
+        if shared_from is not None and cfg.get("share_format_checker"):
+            self.fc = shared_from.fc           # one FormatChecker object may serve several validators
+        else:
+            self.fc = build_format_checker(world.get("formats"), self.collab)
         if shared_from is None:
             root = copy.deepcopy(world["root"])
             keys = world.get("store_keys") or {}
